@@ -4,7 +4,8 @@ func init() {
 	register("C01",
 		"Decides a one-step refinement of every operation against the abstract map-with-deadlines model: for each operation, each abstract pre-state of its key (absent / live / expired-unswept), each callback outcome and each configuration, every enumerated path of the real code returns the model's result and leaves the table in the model's post-state (C01.step); "+
 			"no configuration reaches an unsupported node accessor (C01.cap), the node-variant table is consistent (C01.mgr) and the public wrapper forwards faithfully (C01.deleg). "+
+			"The model's deadlines: every write picks the create hook for an absent/expired key and the update hook with the live old entry otherwise, and stores clock sample + that duration (C12.hook, C12.sat). "+
 			"NOT decided: conformance of whole sequences when eviction interleaves, BulkGet/InvalidateAll beyond one loop iteration, iteration order.",
 		[]string{"composition: operations that map related states to related states and return the model's result compose over finite sequences, given that eviction/expiration only remove entries and report them (C06)", "hashmap.Map.Compute runs its callback exactly once under the bucket lock (C15)"},
-		ruleC01Step, ruleC03Deadline, ruleC01Mgr, ruleC01Deleg, ruleC01Cap, ruleC10TableC10, ruleC10Inv, ruleC10Distribute, ruleC10Finisher, ruleLoadLemma, ruleLoadOps, ruleBulkOps, ruleC03Filter, ruleC15CopyAll, ruleC15Once)
+		ruleC01Step, ruleC03Deadline, ruleC01Mgr, ruleC01Deleg, ruleC01Cap, ruleC10TableC10, ruleC10Inv, ruleC10Distribute, ruleC10Finisher, ruleLoadLemma, ruleLoadOps, ruleBulkOps, ruleC03Filter, ruleC15CopyAll, ruleC15Once, ruleC12Hooks)
 }
